@@ -2131,6 +2131,12 @@ static vbi_bool vbi_proxyd_take_message( PROXY_CLNT *req, VBIPROXY_MSG * pMsg )
 
             dprintf(DBG_MSG, "Update client: fd %d services: 0x%X (was %X)\n", req->io.sock_fd, pBody->service_req.services, req->all_services);
 
+            /* must make very sure strict is within bounds, because it's used as array index */
+            if (pBody->service_req.strict < VBI_MIN_STRICT)
+               pBody->service_req.strict = VBI_MIN_STRICT;
+            else if (pBody->service_req.strict > VBI_MAX_STRICT)
+               pBody->service_req.strict = VBI_MAX_STRICT;
+
             /* flush all buffers in this client's queue */
             pthread_mutex_lock(&proxy.dev[req->dev_idx].queue_mutex);
             while (req->p_sliced != NULL)
